@@ -2984,6 +2984,163 @@ def _ancestors(n, parents):
     cur = parents.get(id(cur))
 
 
+def inline_expression_helpers(tree, modname, table=None):
+  """A new helper (nested, module level, or a method called through self) that only names a pure expression
+       def h(a, b):  t = E1(a); return E2(t, b)
+  is substituted, as an expression, into every call of it - also calls inside comprehensions, conditions and lambdas, where
+  statement-level inlining cannot go."""
+  table = table if table is not None else _load_table()
+  ref_mod = table.get(modname)
+  if not ref_mod:
+    return 0
+  from .canon import _functions
+  count = 0
+  for _round in range(4):
+    parents = {}
+    for n in ast.walk(tree):
+      for c in ast.iter_child_nodes(n):
+        parents[id(c)] = n
+    done = False
+    for q, fn in _functions(tree, modname):
+      if q in ref_mod or not isinstance(fn, ast.FunctionDef):
+        continue
+      decs = [ast.unparse(d) for d in fn.decorator_list]
+      if any(d != 'staticmethod' for d in decs):
+        continue
+      a = fn.args
+      if a.vararg or a.kwarg or a.kwonlyargs or a.posonlyargs:
+        continue
+      body = list(fn.body)
+      if body and isinstance(body[0], ast.Expr) and isinstance(body[0].value, ast.Constant) and isinstance(body[0].value.value, str):
+        body = body[1:]
+      if not body or not isinstance(body[-1], ast.Return) or body[-1].value is None:
+        continue
+      temps = {}
+      ok = True
+      for st in body[:-1]:
+        if isinstance(st, ast.Assign) and len(st.targets) == 1 and isinstance(st.targets[0], ast.Name) and st.targets[0].id not in temps \
+            and _pure(st.value):
+          temps[st.targets[0].id] = st.value
+        else:
+          ok = False
+          break
+      if not ok or not _pure(body[-1].value) or (temps and False):
+        continue
+      params = [x.arg for x in a.args]
+      if set(params) & set(temps):
+        continue
+      owner = parents.get(id(fn))
+      is_method = isinstance(owner, ast.ClassDef)
+      if is_method and 'staticmethod' not in decs:
+        if not params:
+          continue
+        selfname, params = params[0], params[1:]
+      else:
+        selfname = None
+      # the expression, temporaries substituted in definition order
+      expr = copy.deepcopy(body[-1].value)
+      for t in reversed(list(temps)):
+        expr = _Subst({t: temps[t]}, {}).visit(expr)
+      if any(isinstance(x, ast.Name) and x.id in temps for x in ast.walk(expr)):
+        continue
+      free = {x.id for x in ast.walk(expr) if isinstance(x, ast.Name)} - set(params) - ({selfname} if selfname else set())
+      defaults = dict(zip([x.arg for x in a.args][len(a.args) - len(a.defaults):], a.defaults))
+      # call sites
+      scope = owner if isinstance(owner, (ast.FunctionDef, ast.AsyncFunctionDef)) else tree
+      sites = []
+      other_refs = 0
+      for n in ast.walk(scope):
+        if n is fn or any(x is fn for x in _ancestors(n, parents)):
+          continue
+        if isinstance(n, ast.Call) and ((not is_method and isinstance(n.func, ast.Name) and n.func.id == fn.name) or
+                                        (is_method and isinstance(n.func, ast.Attribute) and n.func.attr == fn.name and isinstance(n.func.value, ast.Name)
+                                         and n.func.value.id in ('self', 'cls'))):
+          sites.append(n)
+        elif not is_method and isinstance(n, ast.Name) and n.id == fn.name and not (isinstance(parents.get(id(n)), ast.Call) and parents[id(n)].func is n):
+          other_refs += 1
+        elif is_method and isinstance(n, ast.Attribute) and n.attr == fn.name and not (isinstance(parents.get(id(n)), ast.Call) and parents[id(n)].func is n):
+          other_refs += 1
+      if not sites or other_refs:
+        continue
+      plans = []
+      for call in sites:
+        if any(isinstance(x, ast.Starred) for x in call.args) or any(k.arg is None or k.arg not in params for k in call.keywords) \
+            or len(call.args) > len(params):
+          plans = None
+          break
+        bound = dict(zip(params, call.args))
+        for k in call.keywords:
+          if k.arg in bound:
+            plans = None
+            break
+          bound[k.arg] = k.value
+        if plans is None:
+          break
+        for p_ in params:
+          if p_ not in bound:
+            if p_ in defaults and isinstance(defaults[p_], ast.Constant):
+              bound[p_] = defaults[p_]
+            else:
+              plans = None
+              break
+        if plans is None:
+          break
+        # an argument that is not a plain value may only be used once (and then it is evaluated in place)
+        uses = {p_: sum(1 for x in ast.walk(expr) if isinstance(x, ast.Name) and x.id == p_) for p_ in params}
+        if any(not isinstance(v, (ast.Name, ast.Constant, ast.Attribute)) and (uses[p_] != 1 or not _pure(v)) for p_, v in bound.items()):
+          plans = None
+          break
+        # names the helper takes from its surroundings must mean the same thing at the call
+        shadow = set()
+        for anc in _ancestors(call, parents):
+          if isinstance(anc, (ast.ListComp, ast.SetComp, ast.DictComp, ast.GeneratorExp)):
+            for g_ in anc.generators:
+              shadow |= {x.id for x in ast.walk(g_.target) if isinstance(x, ast.Name)}
+          elif isinstance(anc, ast.Lambda):
+            shadow |= {x.arg for x in ast.walk(anc.args) if isinstance(x, ast.arg)}
+          elif isinstance(anc, (ast.FunctionDef, ast.AsyncFunctionDef)) and anc is not scope and scope is not tree:
+            shadow |= {x.arg for x in ast.walk(anc.args) if isinstance(x, ast.arg)}
+            shadow |= {x.id for x in ast.walk(anc) if isinstance(x, ast.Name) and isinstance(x.ctx, ast.Store)}
+        if scope is tree:
+          # a module-level helper reads module names: the calling function must not bind them locally
+          for anc in _ancestors(call, parents):
+            if isinstance(anc, (ast.FunctionDef, ast.AsyncFunctionDef)):
+              shadow |= {x.arg for x in ast.walk(anc.args) if isinstance(x, ast.arg)}
+              shadow |= {x.id for x in ast.walk(anc) if isinstance(x, ast.Name) and isinstance(x.ctx, ast.Store)}
+        if shadow & free:
+          plans = None
+          break
+        m = dict(bound)
+        if selfname:
+          m[selfname] = call.func.value
+        plans.append((call, m))
+      if not plans:
+        continue
+      for call, m in plans:
+        rep = _Subst({k: v for k, v in m.items()}, {}).visit(copy.deepcopy(expr))
+        ast.copy_location(rep, call)
+        par = parents.get(id(call))
+        for fld, v in ast.iter_fields(par):
+          if v is call:
+            setattr(par, fld, rep)
+          elif isinstance(v, list):
+            for j, x in enumerate(v):
+              if x is call:
+                v[j] = rep
+      holder = owner.body if hasattr(owner, 'body') else tree.body
+      if fn in holder:
+        holder.remove(fn)
+        if not holder:
+          holder.append(ast.Pass())
+      ast.fix_missing_locations(tree)
+      count += 1
+      done = True
+      break
+    if not done:
+      break
+  return count
+
+
 def lifted_candidates(tree, modname, table=None):
   """Names of new module-level functions that look like a reference closure that is missing now."""
   table = table if table is not None else _load_table()
@@ -3110,6 +3267,7 @@ def normalize(tree, modname):
   a = inline_module_constants(tree, modname)
   a += restore_function_names(tree, modname)
   a += collect_generators(tree, modname)
+  a += inline_expression_helpers(tree, modname)
   a += inline_generators(tree, modname)
   a += unlift(tree, modname)
   cands = lifted_candidates(tree, modname)
